@@ -46,10 +46,14 @@ def run(seed, check, tier="quick"):
         print("patch does not apply:", out)
         sys.exit(2)
     t0 = time.time()
+    ev = "/verif/evidence/%s.json" % check
+    saved = open(ev).read() if os.path.exists(ev) else None
     try:
         rc, out = sh("bin/check %s %s" % (check, tier), "/verif", timeout=3600)
     finally:
         sh("git -C /repo checkout -- .", "/repo")
+        if saved is not None:      # evidence must describe runs on the unchanged tree only
+            open(ev, "w").write(saved)
     lines = [l for l in out.splitlines() if l.startswith(("VIOLATION", "  key=", "KNOWN", "OK", "ERROR"))]
     print("check %s rc=%d in %.0fs" % (check, rc, time.time() - t0))
     print("\n".join(l[:400] for l in lines[:12]))
